@@ -80,7 +80,10 @@ func (w *world) pay(i int, d *big.Int) (error, *channel.State) {
 	return err, proposed
 }
 
-func (w *world) cur(i int) channel.Transaction { return w.par[i].ch.VerifMachine().CurrentTX() }
+func (w *world) cur(i int) channel.Transaction {
+	tx, _, _ := view(w.par[i].ch)
+	return tx
+}
 
 func (w *world) fullySigned(i int) bool {
 	tx := w.cur(i)
@@ -133,12 +136,22 @@ func VerifC06Sequential() {
 			tx := w.cur(k)
 			rt.Assert("c06.seq.same-state", tx.State.Version == ref.Version && tx.State.Equal(ref) == nil)
 			rt.Assert("c06.seq.fully-signed", w.fullySigned(k))
-			rt.Assert("c06.seq.ready", w.par[k].ch.VerifMachine().Phase() == channel.Acting && w.par[k].ch.VerifMachMtxFree())
+			_, ph, free := view(w.par[k].ch)
+			rt.Assert("c06.seq.ready", free && ph == channel.Acting)
 		}
 	}
 	rt.Reach("c06.seq")
 }
 
+
+// view reads the channel's current transaction and phase under its machine
+// mutex; ok is false if the mutex is not free.
+func view(ch *client.Channel) (tx channel.Transaction, ph channel.Phase, ok bool) {
+	ok = ch.VerifLocked(func(m channel.Source) {
+		tx, ph = m.CurrentTX().Clone(), m.Phase()
+	})
+	return
+}
 
 type chanPair struct {
 	init *channel.State
@@ -146,8 +159,8 @@ type chanPair struct {
 }
 
 func fullySigned(p *cw.Pair, ch *client.Channel) bool {
-	tx := ch.VerifMachine().CurrentTX()
-	if tx.State == nil || len(tx.Sigs) != 2 {
+	tx, _, free := view(ch)
+	if !free || tx.State == nil || len(tx.Sigs) != 2 {
 		return false
 	}
 	for k := 0; k < 2; k++ {
@@ -233,7 +246,9 @@ func VerifC06Concurrent() {
 		rt.Assert("c06.conc.refusal-is-rejection", ok || isRejection(errs[i]))
 	}
 	for c, cp := range cps {
-		a, b := cp.ch[0].VerifMachine().CurrentTX().State, cp.ch[1].VerifMachine().CurrentTX().State
+		txa, _, _ := view(cp.ch[0])
+		txb, _, _ := view(cp.ch[1])
+		a, b := txa.State, txb.State
 		rt.Assert("c06.conc.same-state", a.Version == b.Version && a.Equal(b) == nil)
 		succ := uint64(0)
 		var last *channel.State
@@ -253,7 +268,8 @@ func VerifC06Concurrent() {
 			rt.Assert("c06.conc.unchanged", a.Equal(cp.init) == nil)
 		}
 		for k := 0; k < 2; k++ {
-			rt.Assert("c06.conc.ready", cp.ch[k].VerifMachine().Phase() == channel.Acting && cp.ch[k].VerifMachMtxFree())
+			_, ph, free := view(cp.ch[k])
+			rt.Assert("c06.conc.ready", free && ph == channel.Acting)
 		}
 	}
 }
